@@ -725,6 +725,18 @@ add("m17n", ["C17"], (S, """        if scan_schedulers:
             yield from job._iterate_jobs(""", """        yield self
         for job in self.jobs:
             yield from job._iterate_jobs("""), rules=["R17.6"])
+add("m17o", ["C17"], (S, """        for job in self.jobs:
+            yield from job._iterate_jobs(
+                scan_schedulers=scan_schedulers)""", """        yield from PureScheduler.iterate_jobs(self)"""), rules=["R17.6"],
+    note="seed C17-R2C: the nested traversal reuses the public entry and drops the flag")
+add("m17p", ["C17"], (S, """            yield from job._iterate_jobs(
+                scan_schedulers=scan_schedulers)""", """            yield from job._iterate_jobs(
+                scan_schedulers=False)"""), rules=["R17.6"])
+add("b17o", ["C17"], (S, """        if scan_schedulers:
+            yield self
+        for job in self.jobs:
+            yield from job._iterate_jobs(
+                scan_schedulers=scan_schedulers)""", """        yield from PureScheduler.iterate_jobs(self, scan_schedulers)"""), expect='silent')
 add("b17a", ["C17"], (P, """                if next not in neighbours:
                     neighbours.add(next)""", """                neighbours.add(next)"""), expect='silent')
 
@@ -990,3 +1002,16 @@ add("b45", ["C17", "C18"], (P, """        for job in self.jobs:
             if job.required:
                 continue
             yield job"""), expect='silent')
+
+add("b46", ALLRUN + ["C07", "C10", "C14"], [(P, """        No automatic shutdown is performed, user needs to explicitly call
+        :meth:`co_shutdown()` or :meth:`shutdown()`.
+        \"\"\"
+        # create a Window no matter what; it will know what to do""", """        No automatic shutdown is performed, user needs to explicitly call
+        :meth:`co_shutdown()` or :meth:`shutdown()`.
+        \"\"\"
+        verdict = await self._co_run()
+        return verdict
+
+    async def _co_run(self):
+        # create a Window no matter what; it will know what to do""")], expect='silent',
+    note="co_run delegates to a private coroutine holding the loop")
